@@ -84,7 +84,7 @@ func (g *gen) bitExpr(e ast.Expr) string {
 func leanStrList(l []string) string {
 	q := make([]string, len(l))
 	for i, s := range l {
-		q[i] = "\"" + s + "\""
+		q[i] = "\"" + leanEsc(s) + "\""
 	}
 	return "[" + strings.Join(q, ", ") + "]"
 }
